@@ -1,9 +1,12 @@
 /-
-  Machine-checked WITNESSES for the lifecycle gaps of overtaken speculative
-  jobs that are still present in src/expand.c (DESIGN 7.1 F2, F4, F5): concrete
-  reachable states of `Model.SchedD`, found by `lbzdrv schedd-find`, replayed
-  here by kernel evaluation.  After a repair of the C code (and of the model)
-  these must stop compiling.
+  Machine-checked WITNESS for the lifecycle gap of overtaken speculative jobs
+  that is still present in src/expand.c (DESIGN 7.1 F4): a concrete reachable
+  state of `Model.SchedD`, found by `lbzdrv schedd-find`, replayed here by
+  kernel evaluation.  After a repair of the C code (and of the model) it must
+  stop compiling.  The former F2 / F5 witnesses are gone with commit 7623822
+  (`discard()`); the runs that used to exhibit them are kept as examples of
+  the repaired behaviour (`f5_repaired`, `f2_repaired`) and the restored
+  statements are proved in Lemmas/SchedD/Attach.lean and Leak.lean.
 -/
 import LbzVerif.Model.SchedD
 
@@ -30,9 +33,14 @@ def traceF5 : List Label :=
    .retrStart ⟨4, 1, none, false⟩, .retrEnd ⟨4, 1, none, false⟩ (some 2),
    .retrEnd ⟨3, 3, (some ⟨3, false, false, true⟩), false⟩ (some 1)]
 
-/-- F5: after `traceF5` a speculative retrieve job sits in `retr_q` with
-    `curr_pos.offset = 4 < head_offs = 6`. -/
-theorem f5_run : (run cfgF5 (init cfgF5) traceF5).any (fun s => staleAttach cfgF5 s) = true := by
+/-- the former F5 run: the overtaken speculative job (it would continue at
+    offset 4 < head_offs = 6) is now discarded: `retr_q` holds no job behind
+    `head_offs`, the work unit is back, and its unord_blk stays in unord_q
+    marked complete (a stale entry) until the parser pops it. -/
+theorem f5_repaired :
+    (run cfgF5 (init cfgF5) traceF5).any
+      (fun s => !staleAttach cfgF5 s && decide (headOffs cfgF5 s = 6) && s.retrQ.all (fun j => j.ub.isNone)
+                && decide (unordSize s = 1) && decide (staleCount s = 1)) = true := by
   decide +kernel
 
 /-- the same block, with a spurious candidate (an immediate decode error) in
@@ -76,11 +84,11 @@ def traceF2 : List Label :=
    .emitStart ⟨1, 0, 1, true, false⟩, .emitEnd ⟨1, 0, 1, true, false⟩,
    .reorder ⟨1, 0, .ok, false⟩, .wDone]
 
-/-- F2: the run `traceF2` terminates cleanly (all counters back, right output)
-    and an `unord_blk` is still allocated: nobody frees it. -/
-theorem f2_run :
+/-- the former F2 run (a speculative job dropped by `advance()` before it ever
+    ran): it terminates cleanly with the right output and NO unord_blk left. -/
+theorem f2_repaired :
     (run cfgF4 (init cfgF4) traceF2).any
-      (fun s => terminated cfgF4 s && decide (leakedCount s = 1)
+      (fun s => terminated cfgF4 s && decide (s.orphans = []) && decide (s.orderQ = [])
                 && decide ((s.written, true) = seqRun cfgF4)) = true := by
   decide +kernel
 
